@@ -31,7 +31,7 @@ func init() {
 		Level: "exploration",
 		Modes: []Mode{{Name: "log", Weight: 6}, {Name: "raw", Weight: 3}, {Name: "goclient", Weight: 2}},
 		Gen:   genC08, Run: runC08,
-		QuickRuns: 8000, ThoroughRuns: 80000,
+		QuickRuns: 8000, ThoroughRuns: 400000,
 		Rule: "plan = (window W in {2 s, 30 s, 2 min}, clean-up period in {1 s, 10 s, 1 min (production creator)}, 2..4 sessions with rooms, history of namespace / room / except broadcasts and direct emits (text and binary) with fake timestamps spread over up to 3 windows, per session a disconnect point and a reconnect time on either side of the window incl. exactly W, optional concurrent broadcasters, stall parameters) from VERIF_SEED; " +
 			"non-trivial = a restore within the window had to replay at least one packet and skip at least one (filtered or before the offset), or a restore was refused for expiry; distinct = distinct history digest",
 		Assumptions: []string{
